@@ -305,6 +305,23 @@ impl GitSyncServer {
             git.cmd(local_path, &["reset", "--hard", "HEAD"])?;
         }
 
+        // Commits that never reached the remote are left behind by a write that was interrupted
+        // between its commit and its push (or were made in local-only mode). Serving such a
+        // version from this clone while the other clones cannot see it would fork the version
+        // chain, so finish the write now, or drop it if the remote has moved on.
+        if let (false, Some(remote)) = (local_only, remote) {
+            if is_repo
+                && !git.cmd_ok(local_path, &["push", remote, branch])?
+                && git.cmd_ok(
+                    local_path,
+                    &["ls-remote", "--exit-code", "--heads", remote, branch],
+                )?
+            {
+                git.cmd(local_path, &["fetch", remote, branch])?;
+                git.cmd(local_path, &["reset", "--hard", "FETCH_HEAD"])?;
+            }
+        }
+
         // Check for meta file, create and commit if missing.
         let meta_path = local_path.join("meta");
         let meta = match load_meta(&meta_path) {
